@@ -34,8 +34,8 @@ var configCmd = &cobra.Command{
 			return ErrInvalidArgs
 		}
 		// one line of the file holds one key and its value: a line break would start another line, a key
-		// with '=' or with blanks at its ends would be read back as another key
-		if strings.ContainsAny(args[0]+args[1], "\n\r") || strings.Contains(dotSplit[1], "=") || strings.TrimSpace(dotSplit[1]) != dotSplit[1] {
+		// with '=', with a tab or with blanks at its ends would be read back as another key
+		if strings.ContainsAny(args[0]+args[1], "\n\r") || strings.ContainsAny(dotSplit[1], "=\t") || strings.TrimSpace(dotSplit[1]) != dotSplit[1] {
 			return ErrInvalidArgs
 		}
 
